@@ -3,6 +3,7 @@
 from ..r_pack import rule_layout, rule_sizes, rule_limits, rule_stereo_codes, rule_cis_trans_keys
 from ..r_readers import rule_negative_count_slices
 from .c18 import duplicate_tables, isotope_windows
+from ..r_hygiene import rule_hygiene as _rule_hygiene
 
 LEVEL = 'other'
 
@@ -21,3 +22,4 @@ def run(ck, repo):
     rule_layout(ck, repo, 'C10.D4-layout')
     rule_stereo_codes(ck, repo, 'C10.D4-stereo-codes')
     rule_cis_trans_keys(ck, repo, 'C10.D4-cis-trans-keys')
+    _rule_hygiene(ck, repo, 'C10.H-dataflow-hygiene', 'C10')
